@@ -26,6 +26,7 @@ def run(ctx: Ctx) -> Collector:
     _settled_tasks(ctx, c)
     _reader(ctx, c)
     _world_run(ctx, c)
+    _late_fields(ctx, c)
     _shutdown(ctx, c)
     _stops(ctx, c)
     _start_proc(ctx, c)
@@ -316,6 +317,111 @@ def _world_run(ctx: Ctx, c: Collector) -> None:
         elif shut[0].guards != sched[0].guards:
             pr.append("shutdown() in the finally block is conditional")
     c.add("R15", WRUN, "run: try scheduler.run finally shutdown()", VIOLATED if pr else DISCHARGED, "; ".join(pr), fi.loc)
+
+
+def _is_optional_ann(ann) -> bool:
+    import ast as _ast
+    if ann is None:
+        return True
+    if isinstance(ann, _ast.Constant):
+        if ann.value is None:
+            return True
+        if isinstance(ann.value, str):
+            try:
+                return _is_optional_ann(_ast.parse(ann.value, mode="eval").body)
+            except SyntaxError:
+                return True
+    if isinstance(ann, _ast.Subscript):
+        head = _ast.unparse(ann.value).rsplit(".", 1)[-1]
+        if head == "Optional":
+            return True
+        if head == "Union":
+            el = ann.slice.elts if isinstance(ann.slice, _ast.Tuple) else [ann.slice]
+            return any(_is_optional_ann(x) and isinstance(x, _ast.Constant) for x in el)
+        return False
+    if isinstance(ann, _ast.BinOp) and isinstance(ann.op, _ast.BitOr):
+        return any(isinstance(x, _ast.Constant) and x.value is None for x in (ann.left, ann.right)) or _is_optional_ann(ann.left) and isinstance(ann.left, _ast.BinOp)
+    return False
+
+
+def _late_init_fields(ctx: Ctx, cq: str) -> Dict[str, str]:
+    """fields of class *cq* that need not hold a usable value after __init__: declared in the class body but not assigned by
+    __init__, or assigned the placeholder None although the declared type is not optional"""
+    import ast as _ast
+    ci = ctx.prog.classes.get(cq)
+    if ci is None or "__init__" not in ci.methods:
+        return {}
+    init = ci.methods["__init__"]
+    me = init.params[0] if init.params else "self"
+    assigned: Dict[str, _ast.AST] = {}
+    for node in _ast.walk(init.node):
+        tgts = []
+        if isinstance(node, _ast.Assign):
+            tgts = [(t, node.value) for t in node.targets]
+        elif isinstance(node, _ast.AnnAssign) and node.value is not None:
+            tgts = [(node.target, node.value)]
+        for t, v in tgts:
+            if isinstance(t, _ast.Attribute) and isinstance(t.value, _ast.Name) and t.value.id == me:
+                assigned.setdefault(t.attr, v)
+    out: Dict[str, str] = {}
+    for f, ann in ci.fields.items():
+        optional = _is_optional_ann(ann)
+        if f not in assigned:
+            out[f] = "not assigned by __init__"
+        elif isinstance(assigned[f], _ast.Constant) and assigned[f].value is None and not optional:
+            out[f] = "placeholder None in __init__"
+    return out
+
+
+def _late_fields(ctx: Ctx, c: Collector) -> None:
+    """The cleanup of World.run (handlers and finally block, shutdown(), SimRunner.stop()) also runs when scheduler.run failed
+    early -- a fault in setup_done comes before the runner tasks exist.  A field that only gets its value inside the guarded
+    region (SimRunner.task, rt_start, output_time, data) may still be the placeholder there: dereferencing it un-guarded raises
+    in the cleanup, masks the simulator's error and skips shutdown()."""
+    fi = ctx.func(WRUN)
+    s = ctx.summ(WRUN)
+    sched = [e for e in s.of_kind("call") if e.term[1] == T.glob("mosaik.scheduler.run")]
+    if not sched:
+        return  # reported by _world_run
+    body = [t for t, r in sched[0].tries if r == "body"]
+    if not body:
+        return
+    tid = body[-1]
+    late: Dict[str, str] = {}
+    for cq in ("mosaik.simmanager.SimRunner", "mosaik.scenario.World"):
+        late.update(_late_init_fields(ctx, cq))
+    # fields that World.run itself assigns, un-conditionally, before it enters the try are set whenever the cleanup runs
+    pre = {e.term[1][2] for e in s.of_kind("store") if e.idx < sched[0].idx and not any(t == tid for t, _ in e.tries)
+           and isinstance(e.term[1], tuple) and e.term[1][0] == "attr" and e.guards == sched[0].guards[:len(e.guards)]}
+    risky = {f: why for f, why in late.items() if f not in pre}
+    c.info["late_fields"] = sorted(risky)
+    region: List[Tuple[str, object]] = []
+    for e in s.events:
+        if any(t == tid and r in ("handler", "finally") for t, r in e.tries):
+            region.append((WRUN, e))
+    for qn in (SHUTDOWN, "mosaik.simmanager.SimRunner.stop"):
+        for e in ctx.summ(qn).events:
+            region.append((qn, e))
+    hits = []
+    for qn, e in region:
+        for x in T.subterms((e.term, e.iters)):
+            if not (isinstance(x, tuple) and len(x) == 3 and x[0] == "attr" and isinstance(x[1], tuple) and len(x[1]) == 3 and x[1][0] == "attr" and x[1][2] in risky):
+                continue
+            path = x[1]
+            if any(T.contains(g, path) for g in e.guards):
+                continue
+            hits.append((qn, e, path))
+    seen = set()
+    for qn, e, path in hits:
+        k = (qn, path[2])
+        if k in seen:
+            continue
+        seen.add(k)
+        c.bad("R15", qn, f"late field {path[2]} in cleanup", f"{T.show(path)} ({risky[path[2]]}; it gets its value inside the region that the cleanup guards) is dereferenced "
+              "without a test in code that also runs after an early failure of scheduler.run (e.g. a fault in setup_done, before the runner tasks exist): "
+              "the cleanup raises, the simulator's error is masked and shutdown() is skipped", ctx.loc(ctx.func(qn), e))
+    if not hits:
+        c.ok("R15", WRUN, "cleanup does not dereference late-initialised fields", f"{len(region)} events of the cleanup region scanned; late fields: {', '.join(sorted(risky))}", fi.loc)
 
 
 def _shutdown(ctx: Ctx, c: Collector) -> None:
